@@ -37,8 +37,17 @@ def hot_source():
             self.observers = []
             super().__init__(self._sub)
 
+        sync, rec = (), None
+
         def _sub(self, observer, scheduler=None):
             self.observers.append(observer)
+            # events this source delivers from INSIDE its subscribe call (a cold synchronous source, a subject that replays)
+            for ev in self.sync:
+                self.rec.mark()
+                try:
+                    self.emit(ev)
+                except Exception as e:  # noqa: BLE001
+                    self.rec.steps[-1].append(("ESCAPED", type(e).__name__, str(e)[:80]))
             return Disposable(lambda: self.observers.remove(observer) if observer in self.observers else None)
 
         def emit(self, ev):
@@ -52,7 +61,8 @@ def hot_source():
     return Hot()
 
 
-def run_real(c, params, timeline):
+def run_real(c, params, timeline, sync=0):
+    """sync = k: the first k events (all of ONE source) are delivered from inside that source's subscribe call"""
     import reactivex
     from reactivex import operators as ops
     env = {"ops": ops, "reactivex": reactivex, "rx": reactivex}
@@ -60,6 +70,10 @@ def run_real(c, params, timeline):
     srcs = [hot_source() for _ in c.sources]
     env.update(dict(zip(c.sources, srcs)))
     rec = diffrun.Recorder()
+    if sync:
+        srcs[timeline[0][0]].sync = [ev for (_i, ev) in timeline[:sync]]
+        srcs[timeline[0][0]].rec = rec
+        timeline = timeline[sync:]
     try:
         obs = eval(c.witness, env)
     except Exception as e:  # noqa: BLE001
@@ -84,6 +98,7 @@ def run_spec(c, params, timeline):
     rec.subscribe = lambda *a, **k: None
     rec.dispose_source = lambda *a, **k: None
     rec.dispose_previous = lambda *a, **k: None
+    rec.subscribe_source = lambda *a, **k: None
     if hasattr(s, "init"):
         s.init()
     if hasattr(s, "on_subscribe"):
@@ -151,6 +166,16 @@ def search(c, max_len=4, budget_s=60.0, pin=None):
             spec = run_spec(c, params, tl)
             if real != spec:
                 return cases, {"case": encode_case(params, tl), "real": diffrun.show(real), "spec": diffrun.show(spec)}
+            # the same events, the leading ones of ONE source delivered from inside its subscribe call
+            k = 0
+            while k < len(tl) and tl[k][0] == tl[0][0]:
+                k += 1
+                cases += 1
+                real = run_real(c, params, tl, sync=k)
+                if real != spec:
+                    case = encode_case(params, tl)
+                    case["sync"] = k
+                    return cases, {"case": case, "real": diffrun.show(real), "spec": diffrun.show(spec)}
     return cases, None
 
 
@@ -170,7 +195,7 @@ def main(argv):
     c = diffrun.contract_of(modname, name)
     if mode == "case":
         params, tl = decode_case(c, json.loads(argv[3]))
-        real, spec = run_real(c, params, tl), run_spec(c, params, tl)
+        real, spec = run_real(c, params, tl, sync=json.loads(argv[3]).get("sync", 0)), run_spec(c, params, tl)
         print("operator :", c.witness, json.loads(argv[3])["params"])
         print("events   :", [(c.sources[i], ev[0]) + ((ev[1],) if ev[0] == "N" else ()) for (i, ev) in tl])
         print("real     :", real)
